@@ -18,8 +18,8 @@ def _oracle(d):
 
 def run(ctx):
     from props import element_common as ec
-    a = mc.generic_run(ctx, 'C19', KINDS, n_quick=12, n_thorough=400)
-    b = ec.generic(ctx, 'C19', {'depths': [0, 1, 2], 'mixed': 0.3, 'copy': 0.2, 'dots': True}, n_quick=(24, 40), n_thorough=(96, 200),
+    a = mc.generic_run(ctx, 'C19', KINDS, n_quick=40, n_thorough=400)
+    b = ec.generic(ctx, 'C19', {'depths': [0, 1, 2], 'mixed': 0.3, 'copy': 0.2, 'dots': True}, n_quick=(32, 60), n_thorough=(96, 300),
                    with_values=True, oracle=_oracle)
     out = dict(a)
     out['violations'] = a['violations'] + b['violations']
